@@ -1,11 +1,20 @@
 import Driver.GateParse
 import Q1t.Spec.Unitaries
+import Q1t.Model.Param
 /-! Driver for C05 (gate matrices). Requests: `matrix <term>`, `nrbits <term>`. -/
 open Q1t Q1t.Proto Q1t.GateParse Q1t.CFloat
 
 def handle (line : String) : String :=
   match words line with
-  | "matrix" :: rest | "matrixref" :: rest =>
+  | "matrixref" :: rest =>
+    -- the gate's parameter is `Reference 0`; the cell currently holds the value on the request line
+    match parseGate rest with
+    | some (g, []) =>
+      let store : Store Float := ⟨fun _ => g.params.headD 0.0, fun _ => 0.0⟩
+      let m : LMat CFloat := Gate.matrixAt store (g.mapP fun _ => Param.reference 0)
+      if m.isEmpty then "panic" else "ok " ++ showMat m
+    | _ => "bad-op"
+  | "matrix" :: rest =>
     match parseGate rest with
     | some (g, []) =>
       let m : LMat CFloat := Gate.matrix g
